@@ -10,8 +10,12 @@ exact retention, honest Read (DESIGN 3/C17).
 (A) Trace_FileLogger: recorded histories of the real FileLogger (verif constructor without the background
     goroutine, RunCycleForVerif, frozen virtual clock): after every action the listing of <home>/logs and the bytes
     every file gained.  TLC's schedule "Log between the two halves of a rotation" is imposed with the
-    `rotate.closed` gate; bursts of 8 goroutines are listed in the order the file itself gives them."""
-import copy, json, os, re
+    `rotate.closed` gate; bursts of 8 goroutines are listed in the order the file itself gives them.
+    Second trace (c17_env): several loggers of one home that take turns (two of them on the same file), an external
+    appender, bursts of two loggers and an external writer on one file, environment faults between the actions
+    (file removed / cut short / appended to, logs/ removed, moved away, replaced by a regular file) followed by the
+    cycles that must bring the logger back, Read windows at every byte offset of content that is not ASCII."""
+import copy, json, os, re, threading
 import vf
 
 
@@ -73,9 +77,10 @@ def property_selftests(run, outdir, meta):
         window of that file / one byte of an answer given through a symbolic link changed (and: that answer withheld
         must be ACCEPTED -- the statement does not decide it);
       suppression: a line written exactly one interval after the last line of its id reported as not written."""
-    job = [j for j in meta.get("jobs", []) if j["spec"] == "Trace_FileLogger"][0]
-    hists = vf.split_histories(open(os.path.join(outdir, job["trace"])).read().splitlines())
-    spec = job["spec"]
+    hists = []
+    for job in [j for j in meta.get("jobs", []) if j["spec"] == "Trace_FileLogger"]:
+        hists += vf.split_histories(open(os.path.join(outdir, job["trace"])).read().splitlines())
+    spec = "Trace_FileLogger"
     res = {}
 
     def of(gen):
@@ -179,8 +184,67 @@ def property_selftests(run, outdir, meta):
             break
         if "line_one_interval_after_its_id_reported_suppressed_rejected" in res:
             break
+    # ---- Read over content that is not ASCII: the window begins inside a character; the same answer with the
+    #      leading continuation bytes dropped (a "cleaned" text at the unchanged offset) must be rejected
+    for ev in of("readmb"):
+        for i, e in enumerate(ev):
+            if e["ev"] == "Read" and not e["res"]["nil"] and 0x80 <= e["res"]["text"][0] <= 0xbf and any(not 0x80 <= c <= 0xbf for c in e["res"]["text"]):
+                a = copy.deepcopy(ev[:i + 1])
+                t = a[-1]["res"]["text"]
+                while t and 0x80 <= t[0] <= 0xbf:
+                    t.pop(0)
+                res["read_text_cleaned_of_a_cut_character_rejected"] = _judge(run, outdir, spec, "read_mb", a, False)
+                break
+        if "read_text_cleaned_of_a_cut_character_rejected" in res:
+            break
+    # ---- faults: the rotation after logs/ was removed made the directory and the file of the day again; the same
+    #      cycle reported as having made nothing must be rejected
+    for ev in of("fault"):
+        gone_at = None
+        for i, e in enumerate(ev):
+            if e["ev"] == "ExtRmLogs":
+                gone_at = i
+            if e["ev"] in ("Ext", "ExtDir", "ExtBlock"):
+                gone_at = None
+            if gone_at is not None and e["ev"] == "Read" and e["obs"]["logs"] != "none":
+                gone_at = None
+            if gone_at is not None and e["ev"] == "CycleA" and e["obs"]["logs"] == "dir" and any(x["add"] for x in e["obs"]["files"]) \
+                    and i + 1 < len(ev) and ev[i + 1]["ev"] == "CycleB":
+                pre = ev[:i + 2]
+                _judge(run, outdir, spec, "fault_prefix", pre, True)
+                a = copy.deepcopy(pre)
+                for x in a[-2:]:   # both halves of the cycle saw nothing made (the second one: no output file)
+                    x["obs"]["files"], x["obs"]["logs"] = [], "none"
+                a[-1]["cur"] = [0]
+                res["rotation_that_did_not_make_logs_again_rejected"] = _judge(run, outdir, spec, "fault_nomkdir", a, False)
+                break
+        if "rotation_that_did_not_make_logs_again_rejected" in res:
+            break
+    # ---- two handles on one file: a line of the second logger reported as written over the end of the file
+    #      (the file did not grow by it) must be rejected
+    for ev in of("duo"):
+        seen_switch = False
+        for i, e in enumerate(ev):
+            seen_switch = seen_switch or e["ev"] == "Switch"
+            if not (seen_switch and e["ev"] == "Log" and "obs" in e):
+                continue
+            adds = [x for x in e["obs"]["files"] if x["add"] and not x["whole"] and x["size"] > 2 * len(x["add"])]
+            if len(adds) != 1:
+                continue
+            pre = ev[:i + 1]
+            _judge(run, outdir, spec, "duo_prefix", pre, True)
+            a = copy.deepcopy(pre)
+            for x in a[-1]["obs"]["files"]:
+                if x["add"] and not x["whole"]:
+                    x["size"] -= len(x["add"])
+            res["line_written_over_another_writers_bytes_rejected"] = _judge(run, outdir, spec, "duo_over", a, False)
+            break
+        if "line_written_over_another_writers_bytes_rejected" in res:
+            break
     _judge_all(run)
-    need = ["expired_file_reported_kept_rejected", "survivor_reported_deleted_rejected", "read_text_byte_changed_rejected",
+    need = ["read_text_cleaned_of_a_cut_character_rejected", "rotation_that_did_not_make_logs_again_rejected",
+            "line_written_over_another_writers_bytes_rejected",
+            "expired_file_reported_kept_rejected", "survivor_reported_deleted_rejected", "read_text_byte_changed_rejected",
             "read_offset_moved_rejected", "read_answer_turned_nil_rejected", "line_one_interval_after_its_id_reported_suppressed_rejected",
             "answer_from_sibling_directory_of_logs_rejected", "answer_through_symbolic_link_byte_changed_rejected",
             "answer_through_symbolic_link_withheld_accepted"]
@@ -195,14 +259,84 @@ def property_selftests(run, outdir, meta):
 ASIS_ONLY = {"LogLose"}
 
 
-def body(run):
+# actions of FileLogger.tla that at least one of the model-checking configurations must take (TLC -coverage)
+SPEC_ACTIONS = ["Switch", "Advance", "ExternalFile", "ExternalAppend", "ExternalRemove", "ExternalTruncate", "ExternalRemoveLogs",
+                "ExternalBlock", "ExternalUnblock", "Open", "Configure", "LogDrop", "LogSuppress", "LogEmit", "LogVanish",
+                "CycleA", "BannerLine", "CycleB", "Read"]
+# single lines that mark a branch of an action: the cycle that finds a regular file where logs/ should be
+SPEC_MARKS = {"CycleA down": "att' = FALSE /\\ UNCHANGED logsSt", "CycleB still down": "fresh' = (cur # Closed)"}
+
+
+def _taken(run, out):
+    """which FileLogger actions (and marked branches) the TLC run whose output is `out` has taken: the count TLC's
+    coverage gives for the action's last conjunct (its UNCHANGED clause)"""
+    spec = open(os.path.join(run.specdir, "FileLogger.tla")).read().split("\n")
+    cnt = {}
+    for m in re.finditer(r"line (\d+), col \d+ to line \d+, col \d+ of module FileLogger: (\d+)", out):
+        cnt[int(m.group(1))] = max(cnt.get(int(m.group(1)), 0), int(m.group(2)))
+    got = set()
+    for name in SPEC_ACTIONS:
+        a = [k for k, x in enumerate(spec) if re.match(re.escape(name) + r"(\(.*\))? ==", x)][0]
+        b = a
+        while b + 1 < len(spec) and spec[b + 1].strip() and not re.match(r"\\\*|\(\*|[A-Za-z0-9]+(\(.*\))? ==", spec[b + 1]):
+            b += 1
+        u = [k for k in range(a, b + 1) if "UNCHANGED" in spec[k]][-1]
+        if cnt.get(u + 1, 0) > 0:
+            got.add(name)
+    for name, text in SPEC_MARKS.items():
+        ls = [k for k, x in enumerate(spec) if text in x]
+        if len(ls) != 1:
+            raise vf.MachineryError("coverage mark %r not found exactly once in FileLogger.tla" % name)
+        if cnt.get(ls[0] + 1, 0) > 0:
+            got.add(name)
+    return got
+
+
+def model_checking(run):
+    """the three configurations of the design (plain / faults / two loggers) and the refuted former design"""
     th = run.thorough()
-    run.mc("MC_FileLogger", cfg="MC_FileLogger_thorough.cfg" if th else "MC_FileLogger.cfg", workers=run.pick(4, 16), coverage=True)
-    never = set(run.mc_runs[-1].get("actions_never_taken") or []) - ASIS_ONLY
+    from concurrent.futures import ThreadPoolExecutor
+    never, taken = None, set()
+    cfgs = (["MC_FileLogger_thorough.cfg", "MC_FileLogger_env_thorough.cfg", "MC_FileLogger_duo_thorough.cfg"] if th else
+            ["MC_FileLogger.cfg", "MC_FileLogger_env.cfg", "MC_FileLogger_duo.cfg"])
+    # quick: the three configurations side by side (a few workers each); thorough: one after the other
+    with ThreadPoolExecutor(max_workers=1 if th else 3) as pool:
+        outs = list(pool.map(lambda cfg: run.mc("MC_FileLogger", cfg=cfg, workers=run.pick(3, 12), coverage=True), cfgs))
+    for cfg, r in zip(cfgs, outs):
+        rec = [x for x in run.mc_runs if x["cfg"] == cfg][-1]
+        z = set(rec.get("actions_never_taken") or [])
+        never = z if never is None else never & z
+        taken |= _taken(run, r["out"])
+    never -= ASIS_ONLY
     if never:
-        raise vf.MachineryError("vacuity: actions never taken by MC_FileLogger: %s" % sorted(never))
+        raise vf.MachineryError("vacuity: actions never taken by any configuration of MC_FileLogger: %s" % sorted(never))
+    miss = (set(SPEC_ACTIONS) | set(SPEC_MARKS)) - taken
+    if miss:
+        raise vf.MachineryError("vacuity: actions of FileLogger.tla never taken by any configuration of MC_FileLogger: %s" % sorted(miss))
+    run.extra["model_actions_taken"] = sorted(taken)
     sensitivity(run)
 
+
+def body(run):
+    # the design is model-checked beside the driving and judging of the real code
+    box = {}
+
+    def bg():
+        try:
+            model_checking(run)
+        except BaseException as ex:
+            box["err"] = ex
+    th_mc = threading.Thread(target=bg)
+    th_mc.start()
+    try:
+        _real_code(run)
+    finally:
+        th_mc.join()
+    if "err" in box:
+        raise box["err"]
+
+
+def _real_code(run):
     out, meta = run.drive("c17", timeout=2400)
     run.absorb(meta)
     run.validate(out, meta, max_findings=10)
@@ -212,6 +346,7 @@ def body(run):
         run.selftest(out, meta, gen="gate", field="cur")
         run.selftest(out, meta, gen="burst", field="seq")
         run.selftest(out, meta, gen="race", field="raw")
+        run.selftest(out, meta, gen="duoburst", field="to")
         property_selftests(run, out, meta)
     run.assumptions += [
         "the 10 s timer is replaced by RunCycleForVerif (one cycle on demand) and the constructor runs without the background goroutine; the clock is golib's own sync-time mode with its ticker stopped (dateutil.Now() = a value the harness sets), days 2001..2099",
